@@ -8,6 +8,7 @@ from pathlib import Path
 from typing import TYPE_CHECKING
 from typing import Any
 from typing import Awaitable
+from typing import Coroutine
 from typing import Iterator
 from typing import Mapping
 from typing import Optional
@@ -218,6 +219,12 @@ class BoundTemplate:
             return True
 
         uptodate = self.uptodate()
+        if isinstance(uptodate, Coroutine):
+            # This template was loaded asynchronously and its freshness check can't
+            # be awaited here. Report it as stale so the loader loads it again.
+            uptodate.close()
+            return False
+
         if not isinstance(uptodate, bool):
             raise LiquidError(
                 f"expected a boolean from uptodate, found {type(uptodate).__name__}",
